@@ -281,7 +281,10 @@ def l2_wait_for(ctx, rep):
     ra = _ra(ctx)
     A = ctx.A
     acq = ra.acq
-    ACQ = {"R": acq["R"], "C": acq["C"], "I": acq["I"], "P": acq["P"], "RP": acq["R"] | acq["P"], "U": acq["U"]}
+    # the iterator's consumer is a client thread: between two next() calls it may call any
+    # public method (`last_action()`, `get_state()`, ..), so what it can be waiting for while
+    # the iterator channel is full includes every lock the client API takes
+    ACQ = {"R": acq["R"], "C": acq["C"], "I": acq["I"] | acq["U"], "P": acq["P"], "RP": acq["R"] | acq["P"], "U": acq["U"]}
     n = 0
     seen = set()
     for b in ra.blocking:
@@ -361,6 +364,61 @@ def _drop_before(ctx, s):
     return False
 
 
+def _try_lock_is_only_a_fast_path(ctx, s, lid):
+    """`match m.try_lock() { Ok(g) => g, Err(WouldBlock) => m.lock().unwrap(), .. }`: from the
+    Err edge of the switch on the try_lock result no return is reachable without passing a
+    blocking acquisition of the same lock (panicking paths aside)"""
+    from mirq.locks import LOCK_CALLS, default_lock_id
+    from mirq.prov import TRY_LOCKS
+    b = s.body
+    cfg = ctx.prog.cfg(b)
+    dest = s.term["dest"]
+    if dest["p"] or s.term.get("target") is None:
+        return False
+    # the switch on the result's discriminant, reached by straight-line code
+    cur = s.term["target"]
+    err = None
+    for _ in range(6):
+        blk = b.blocks[cur]
+        t = blk["term"]
+        if t["k"] == "switch" and t["discr"]["k"] in ("copy", "move") and not t["discr"]["place"]["p"]:
+            dl = t["discr"]["place"]["l"]
+            if any(st["k"] == "assign" and not st["place"]["p"] and st["place"]["l"] == dl and st["rv"]["k"] == "discr" and st["rv"]["place"] == {"l": dest["l"], "p": []} for st in blk["stmts"]):
+                oks = [tb for tv, tb in t["targets"] if str(tv) == "0"]
+                errs = [tb for tv, tb in t["targets"] if str(tv) == "1"]
+                err = errs[0] if errs else (t.get("otherwise") if oks else None)
+            break
+        if t["k"] == "goto":
+            cur = t["target"]
+            continue
+        break
+    if err is None:
+        return False
+    waits = {x.bb for x in ctx.prog.sites(b) if x.ck in LOCK_CALLS and x.ck not in TRY_LOCKS
+             and default_lock_id(ctx.prog, b, ctx.prog.bp(b).arg_term(x.bb, 0), x.fn) == lid}
+    if not waits:
+        return False
+    seen = set()
+    st_ = [err]
+    while st_:
+        x = st_.pop()
+        if x in seen or x in waits:
+            continue
+        seen.add(x)
+        tx = b.blocks[x]["term"]
+        if tx["k"] == "return":
+            return False
+        if tx["k"] == "call" and tx["args"]:
+            from mirq.prov import call_fn, ckey
+            f_ = call_fn(tx)
+            if f_ and ckey(f_) in ("std::result::Result::unwrap", "std::result::Result::expect"):
+                a0 = strip_wrap(ctx.prog.bp(b).arg_term(x, 0))
+                if a0[0] == "agg" and a0[1] == "adt:std::result::Result::Err":
+                    continue  # `Err(poisoned).unwrap()`: only panics
+        st_.extend(y for y in cfg.succ[x] if not b.blocks[y].get("cleanup"))
+    return True
+
+
 def lk0_blocking_acquisitions(ctx, rep):
     """every acquisition of a lock of the library waits for it (`lock()`, `read()`, `write()`):
     a `try_lock` turns contention with another thread - which every property quantifies over -
@@ -386,8 +444,65 @@ def lk0_blocking_acquisitions(ctx, rep):
             unwrapped = any(x.ck in ("std::result::Result::unwrap", "std::result::Result::expect") and x.term["args"] and bp_.arg_term(x.bb, 0) == me for x in ctx.prog.sites(s.body))
             if unwrapped:
                 rep.bad(R, "try-lock-unwrapped:%s:%s" % (lid, short(s.body.path)), s.where, "%s().unwrap() on %s: the calling thread panics whenever another thread holds the lock" % (s.ck.split("::")[-1], lid))
+            elif _try_lock_is_only_a_fast_path(ctx, s, lid):
+                bad -= 1
+                rep.ok(R, "blocking-acquisition:%s:%s" % (lid, short(s.body.path)), s.where, "%s on %s is a fast path: every path on which it fails goes on to the blocking acquisition of the same lock" % (s.ck.split("::")[-1], lid))
+                continue
             rep.bad(R, "blocking-acquisition:%s:%s" % (lid, short(s.body.path)), s.where,
                     "%s on %s: when another thread holds the lock the operation is skipped or (unwrapped) the calling thread panics" % (s.ck.split("::")[-1], lid))
     if not bad:
         rep.ok(R, "all-acquisitions-blocking", "", "all %d lock acquisitions in the crate use the blocking call" % n)
     rep.floor(R, "lock acquisition sites", n, 8)
+
+
+WAITS = {"std::thread::sleep", "std::thread::park", "std::thread::park_timeout", "std::thread::yield_now", "std::thread::sleep_ms",
+         "std::sync::Condvar::wait", "std::sync::Condvar::wait_while", "std::sync::Condvar::wait_timeout", "std::sync::Condvar::wait_timeout_while",
+         "std::sync::Barrier::wait", "std::hint::spin_loop"}
+
+
+def l3_no_waiting_under_a_lock(ctx, rep):
+    """the library never sleeps / parks / spins while it holds one of its locks: a poll loop
+    under the sender-slot (or any other) lock waits for progress of threads that need that very
+    lock (`flush()` polling the queue length with the sender lock held stops every dispatch, the
+    reducer thread's included)"""
+    R = "L3"
+    n = 0
+    bad = 0
+    for s in ctx.prog.sites():
+        if s.ck not in WAITS:
+            continue
+        n += 1
+        rep.note_fn(s.body.path)
+        may, must = ctx.lr(s.body).held_at(s.bb, "term")
+        held = set(may)
+        if "Condvar" in s.ck:
+            # a condvar wait releases the mutex whose guard it is given
+            moved = {a["place"]["l"] for a in s.term["args"] if a["k"] == "move" and not a["place"]["p"]}
+            given = {h[0] for h in ctx.lr(s.body).holders_at(s.bb, "term") if h[1] in moved}
+            held -= given
+        # locks held by the callers of a private helper
+        root = ctx.helper_root(s.body)
+        if root.path != s.body.path:
+            for cs in ctx.prog.callers(s.body):
+                m2, _ = ctx.lr(cs.body).held_at(cs.bb, "term")
+                held |= set(m2)
+        if held:
+            bad += 1
+        rep.check(not held, R, "waits-while-holding:%s:%s" % (short(s.body.path), "+".join(sorted(held)) or "-"), s.where, "%s with no lock held" % s.ck.split("::")[-1],
+                  "%s while holding {%s}: every thread that needs the lock is stopped for the duration of the wait, and if the awaited progress needs the lock the wait never ends" % (s.ck.split("::")[-1], ", ".join(sorted(held))))
+    if not bad:
+        rep.ok(R, "no-wait-under-lock", "", "%d sleep/park/spin site(s) in the library, none under a lock" % n)
+    # a condvar wait / park anywhere in the library is a blocking operation whose wake-up none of
+    # the wait-for rules models (who signals? on every path? also after a dropped action?): for
+    # deadlock freedom it is reported as not decided (fail closed), like an unknown channel in L2
+    cw = [s for s in ctx.prog.sites() if s.ck in WAITS and ("Condvar" in s.ck or "park" in s.ck or "Barrier" in s.ck)]
+    rep.check(not cw, R, "no-unmodelled-blocking-wait", cw[0].where if cw else "", "the library blocks only on its channels, locks and joins (all modelled by L1/L2)",
+              "blocking wait(s) %s: the wake-up condition is not modelled by any rule, so absence of a lost wake-up / never-satisfied condition is not decided" % sorted({"%s:%s" % (short(x.body.path), x.ck.split("::")[-1]) for x in cw}))
+    # the reducer thread waits for nothing but its queue (and the channels of its subscribers):
+    # a condvar / park / sleep in its loop makes the progress of every accepted action - and the
+    # join in stop() - depend on a signal that only some later client call gives
+    G = ctx.rgraph()
+    gb = {nd.body.path for nd in G.nodes.values()}
+    rw = [s for s in ctx.prog.sites() if s.ck in WAITS and s.body.path in gb]
+    rep.check(not rw, R, "reducer-thread-never-parks", rw[0].where if rw else "", "no sleep / park / condvar wait is reachable on the reducer thread",
+              "the reducer thread can wait in %s: accepted actions (and stop()'s join) then depend on another thread's signal" % sorted({"%s:%s" % (short(x.body.path), x.ck.split("::")[-1]) for x in rw}))
